@@ -245,6 +245,7 @@ def history_independence(sink, seed, tier):  # noqa: C901
     gc.collect()
     # (d) transient churn with measured address reuse (after the caches overflowed)
     churn(sink, seed, harness.scale(4000, 100000, tier), 'c18churn', 30_000)
+    instance_churn(sink, harness.scale(3000, 60000, tier))
     sink.extra['address_reuse'] = dict(reuses=sink.counters.get('address-reuses', 0), with_different_expected_answer=sink.counters.get('address-reuses-with-different-answer', 0))
 
 
@@ -273,6 +274,45 @@ def churn(sink, seed, n_churn, tag, base):
     sink.count('churn-classes', n_churn)
     sink.count('address-reuses', reuses)
     sink.count('address-reuses-with-different-answer', reuses_diff)
+
+
+def instance_churn(sink, n):
+    """Instances of short-lived classes with alternating verdicts, classified back to back through the INSTANCE entry points only (nothing of
+    another type is classified in between): a class created at the address of a collected one must be classified afresh."""
+    import collections
+    import gc
+
+    last = {}
+    reuses = 0
+    for i in range(n):
+        kind = ('nt', 'plain', 'nt-lookalike', 'plain')[i % 4] if (i // 7) % 2 else ('plain', 'nt')[i % 2]
+        if kind == 'nt':
+            cls = collections.namedtuple(f'IC{i}', ['a', 'b'])
+            inst, want = cls(1, 2), True
+        elif kind == 'nt-lookalike':
+            cls = type(f'ICL{i}', (tuple,), {'_fields': ('a', 'b'), '_make': None, '_asdict': None})
+            inst, want = cls((1, 2)), False
+        else:
+            cls = type(f'ICP{i}', (tuple,), {})
+            inst, want = cls((1, 2)), False
+        addr = id(cls)
+        if addr in last and last[addr] != want:
+            reuses += 1
+        try:
+            got = optree.is_namedtuple_instance(inst)
+        except Exception as e:  # noqa: BLE001
+            got = repr(e)
+        ok_fields = True
+        if got is True and want is True:
+            ok_fields = optree.namedtuple_fields(inst) == ('a', 'b')
+        sink.check(got is want and ok_fields, f'history/instance-address-reuse/{kind}', 'an instance of a class created at the address of a collected class is classified afresh', dict(i=i, kind=kind, reused=addr in last),
+                   lambda: dict(got=got, want=want, previous_at_address=last.get(addr)))
+        last[addr] = want
+        del cls, inst
+        if i % 3 == 0:
+            gc.collect()
+    sink.count('instance-churn', n)
+    sink.count('instance-address-reuses-with-different-answer', reuses)
 
 
 def sort_case(sink, seed, idx):
@@ -459,6 +499,7 @@ def finalize(sink, tier, seed):
     sink.require('fresh-interpreter-queries')
     sink.require('live-classes-filling-caches', 4097)
     sink.require('address-reuses-with-different-answer', 10)
+    sink.require('instance-address-reuses-with-different-answer', 10)
     sink.require('sort-lists:stage2')
     sink.require('sort-lists:stage3')
     for st in gen.KEY_STYLES:
